@@ -95,7 +95,7 @@ def ill_items(r):
 
 
 def plan(tier, seed):
-    specs = [{"kind": "labelled", "spellings": 3 if tier == "quick" else 8}, {"kind": "syntactic"}, {"kind": "reconfigured"}, {"kind": "threads", "rounds": 8 if tier == "quick" else 80}]
+    specs = [{"kind": "labelled", "spellings": 3 if tier == "quick" else 8}, {"kind": "syntactic"}, {"kind": "int-digit-limit"}, {"kind": "reconfigured"}, {"kind": "threads", "rounds": 8 if tier == "quick" else 80}]
     n = 10 if tier == "quick" else 44
     for i in range(n):
         specs.append({"kind": "random", "n": 4000 if tier == "quick" else 40000, "depth": (2 + i % 3) if tier == "quick" else (3 + i % 4)})
@@ -379,7 +379,31 @@ def run(spec, ctx):
     r = ctx.rng
     env = jsonpath.JSONPathEnvironment()
     kind = spec["kind"]
-    if kind == "reconfigured":
+    if kind == "int-digit-limit":
+        # the interpreter's limit on int <-> str conversion is process state a host application may have changed: switched
+        # off (0), lowered to its minimum (640), raised. Well-formed queries compile and ill-formed ones are refused all the same.
+        import sys
+
+        old_limit = sys.get_int_max_str_digits()
+        mx, mn = (2 ** 53) - 1, -(2 ** 53) + 1
+        planned = {}   # (the texts are written while the interpreter still converts every one of these integers)
+        for cls, lo, hi in (("default", mn, mx), ("narrow", -10, 10)):
+            planned[cls] = [(text, lo <= v <= hi) for v in (0, 1, -1, 3, 7, 10, -10, 11, -11, hi, lo, hi + 1, lo - 1, 10 ** 30, int("9" * 639), int("9" * 641))
+                            for text in ("$[%d]" % v, "$[%d:]" % v, "$[:%d]" % v, "$[::%d]" % v, "$[0,%d]" % v, "$[?@[%d] == 1]" % v, "$[?count(@[%d:]) > 0]" % v, "$..[%d]" % v)]
+        try:
+            for limit in (0, 640, 100000, old_limit):
+                sys.set_int_max_str_digits(limit)
+                for e, lo, hi, cls in ((jsonpath.JSONPathEnvironment(), mn, mx, "default"), (narrow_env(), -10, 10, "narrow")):
+                    for text, ok in planned[cls]:
+                        compile_case(ctx, e, text, ok, "%s:int-digit-limit=%s" % (cls, limit), "index-or-slice-out-of-range")
+                    for text, ok_, lab in SENTINELS:
+                        compile_case(ctx, e, text, ok_, "%s:int-digit-limit=%s" % (cls, limit), lab)
+                    for text in ("$[1]", "$[-1]", "$[0,3]", "$[1:3]", "$[::-4]", "$[?@ == 2][0]", "$[?@.a == 12345678901234567890]", "$[?length(@.a) == 3]", "$.a[?@.b > 1e3].c"):
+                        compile_case(ctx, e, text, True, "%s:int-digit-limit=%s" % (cls, limit), "well-formed")
+                ctx.cell("configurations", "interpreter int/str digit limit = %s" % limit)
+        finally:
+            sys.set_int_max_str_digits(old_limit)
+    elif kind == "reconfigured":
         run_reconfigured(ctx)
     elif kind == "threads":
         run_threads(ctx, spec["rounds"])
@@ -498,6 +522,9 @@ def replay(case, ctx):
 
     if case.get("kind") == "reconfigured":
         run_reconfigured(ctx)
+        return
+    if ":int-digit-limit=" in str(case.get("class", "")):
+        run({"kind": "int-digit-limit", "shard": 0}, ctx)
         return
     if case.get("kind") == "threads":
         run_threads(ctx, 40)
